@@ -1234,6 +1234,22 @@ pub fn run(prop: &str, tier: &str, report: &mut Report) {
     report.cov("preemption_bound_completed", json!(if capped { Value::Null } else { json!(bound) }));
     report.cov("time_cap_hit", json!(capped));
     report.cov("exhaustive", json!(!capped));
+    if prop == "C02" {
+        let mut frames = 0;
+        for _ in 0..3 {
+            let (fs2, n) = stress_c02();
+            frames += n;
+            for f in fs2 {
+                report.add_violation(Violation {
+                    property: prop.to_string(),
+                    signature: format!("E2:stress:{}", f.kind),
+                    message: f.msg,
+                    replay: json!({"engine": "e2-stress"}),
+                });
+            }
+        }
+        report.cov("supplementary_free_running_stress", json!({"runs": 3, "writers": 4, "frames_delivered": frames, "note": "hook-free sample of schedules, not the deciding step; sees reorderings inside one scheduling step"}));
+    }
     report.cov("scenarios", json!(per_scenario));
     report.cov("distinct_outcomes", json!(all_outcomes));
     report.cov("samples", json!(samples));
@@ -1267,4 +1283,82 @@ pub fn replay(v: &Value) -> i32 {
     } else {
         1
     }
+}
+
+/// Supplementary, hook-free detector for C02 (NOT the deciding step: a free-running stress run is
+/// a sample of schedules). It sees reorderings inside a step that the scheduling points cannot
+/// separate. Any finding is a genuine execution of the real code.
+pub fn stress_c02() -> (Vec<Finding>, u64) {
+    use std::sync::atomic::{AtomicBool, Ordering};
+    let mut findings = vec![];
+    let dir = common::scratch_dir("e2s");
+    let store = Store::new(dir.clone());
+    let rt = tokio::runtime::Builder::new_multi_thread().worker_threads(2).enable_all().build().unwrap();
+    let mut rx = rt.block_on(store.read(ReadOptions::builder().follow(FollowOption::On).tail(true).build()));
+    let stop = Arc::new(AtomicBool::new(false));
+    // the last-id poller
+    let poller = {
+        let store = store.clone();
+        let stop = stop.clone();
+        std::thread::spawn(move || {
+            let mut last: Option<Scru128Id> = None;
+            let mut got: Vec<Scru128Id> = vec![];
+            loop {
+                let done = stop.load(Ordering::SeqCst);
+                let new: Vec<Scru128Id> = store.read_sync(last.as_ref(), None, None).map(|f| f.id).collect();
+                if let Some(l) = new.last() {
+                    last = Some(*l);
+                }
+                got.extend(new);
+                if done {
+                    break;
+                }
+            }
+            got
+        })
+    };
+    let writers: Vec<_> = (0..4)
+        .map(|w| {
+            let store = store.clone();
+            std::thread::spawn(move || {
+                for k in 0..120 {
+                    let ttl = if (w + k) % 5 == 0 { Some(TTL::Ephemeral) } else { None };
+                    let _ = store.append(Frame::builder(format!("w{}", w), ZERO_CONTEXT).maybe_ttl(ttl).build());
+                }
+            })
+        })
+        .collect();
+    for w in writers {
+        let _ = w.join();
+    }
+    let fin = store.append(Frame::builder("fin", ZERO_CONTEXT).build()).unwrap();
+    stop.store(true, Ordering::SeqCst);
+    let polled = poller.join().unwrap();
+    let mut delivered: Vec<Scru128Id> = vec![];
+    rt.block_on(async {
+        while let Ok(Some(f)) = tokio::time::timeout(Duration::from_secs(20), rx.recv()).await {
+            let id = f.id;
+            delivered.push(id);
+            if id == fin.id {
+                break;
+            }
+        }
+    });
+    if let Some(w) = delivered.windows(2).find(|w| w[1] <= w[0]) {
+        findings.push(Finding { kind: "stress.follow.order".into(), msg: format!("free-running stress: a live subscriber was sent {} after {} ({} frames)", w[1], w[0], delivered.len()) });
+    }
+    let want: Vec<Scru128Id> = store.read_sync(None, None, None).map(|f| f.id).collect();
+    if polled != want {
+        findings.push(Finding { kind: "stress.poller".into(), msg: format!("free-running stress: a last-id poller collected {} frames, the stream holds {}", polled.len(), want.len()) });
+    }
+    let n = delivered.len() as u64;
+    drop(rx);
+    rt.shutdown_background();
+    common::close_store_async(store);
+    let d = dir.clone();
+    std::thread::spawn(move || {
+        std::thread::sleep(Duration::from_millis(700));
+        let _ = std::fs::remove_dir_all(d);
+    });
+    (findings, n)
 }
